@@ -91,6 +91,14 @@ def b_isinstance(interp: Any, args: List[Any], kwargs: Dict[str, Any]) -> Any:
     return any(n in tys for n in names)
 
 
+def _b_delattr(interp: Any, obj: Any, name: str) -> None:
+    attrs = getattr(obj, "attrs", None)
+    if not isinstance(attrs, dict) or name not in attrs:
+        raise PyRaise("AttributeError", name)
+    interp.ctx.effects.append(("setattr", obj, name))
+    del attrs[name]
+
+
 def b_len(interp: Any, args: List[Any], kwargs: Dict[str, Any]) -> Any:
     from .interp import GenList, ObjVal
 
@@ -479,6 +487,12 @@ def make_builtins(interp: Any) -> Dict[str, Any]:
         "setattr": B("setattr", b_setattr),
         "callable": B("callable", b_callable),
         "vars": B("vars", lambda it, a, k: get_attribute(it, a[0], "__dict__")),
+        "filter": B("filter", lambda it, a, k: [x for x in it.iterate(a[1]) if it.truth(x if a[0] is None else it.call(a[0], [x], {}))]),
+        "repr": B("repr", lambda it, a, k: repr(a[0]) if isinstance(a[0], (str, int, bool, type(None))) else __import__("pyvc.interp", fromlist=["OpaqueStr"]).OpaqueStr()),
+        "format": B("format", lambda it, a, k: __import__("pyvc.interp", fromlist=["OpaqueStr"]).OpaqueStr()),
+        "slice": B("slice", lambda it, a, k: slice(*a)),
+        "delattr": B("delattr", lambda it, a, k: _b_delattr(it, a[0], a[1])),
+        "issubclass": B("issubclass", lambda it, a, k: any(n in {getattr(c, "name", str(c)) for c in (a[0].mro() if hasattr(a[0], "mro") else [a[0]])} for n in _type_names(it, a[1]))),
         "type": B("type", b_type),
         "zip": B("zip", b_zip),
         "map": B("map", b_map),
